@@ -260,6 +260,22 @@ func famLiar(thorough bool) []archive {
 			}
 		}
 	}
+	// announced sizes that are negative once converted to a signed 64-bit integer (2^63, 2^64-1): small streams and a bomb
+	for _, a := range []int{3, mib} {
+		for _, store := range []bool{false, true} {
+			if store && a == mib {
+				continue
+			}
+			for _, class := range []string{"sign", "max"} {
+				for _, where := range []string{"cd", "both"} {
+					l := node{Kind: "file", Name: "liar", Size: a, Store: store, Lie: &lie{Class: class, Where: where}}
+					out = append(out, archive{Family: "liar", Kids: []node{l}})
+					out = append(out, archive{Family: "liar", Kids: []node{{Kind: "file", Name: "h", Size: 1}, l}})
+					out = append(out, archive{Family: "liar", Kids: wrap(1, "plain", []node{l})})
+				}
+			}
+		}
+	}
 	// a lying bomb: 1 MiB stream announced as 1 byte / as 3 bytes more
 	for _, class := range []string{"zero", "minus1", "plus1"} {
 		out = append(out, archive{Family: "liar", Kids: []node{{Kind: "file", Name: "bomb", Size: mib, Lie: &lie{Class: class, Where: "both"}}}})
